@@ -21,13 +21,17 @@ func init() {
 	mon.Register(&mon.Property{
 		ID:    "C05",
 		Level: "exploration",
-		Rule: "seeded pattern sets (static, :name, lit:name, =:name, trailing *name over a 6-word alphabet; names unique per pattern) each built in K random insertion orders; " +
-			"lookup paths = instantiations with hostile parameter texts (incl. ':' '*' '#' '='), one-edit mutations, random bytes; oracle = naive per-pattern matcher written from the statement. " +
+		Rule: "seeded pattern sets (static, :name, lit:name, =:name, trailing *name over a 6-word alphabet; names unique inside a pattern: in 5 sets of 8 unique in the whole set, in 2 of 8 drawn from a pool of ten short names shared between patterns, in 1 of 8 cut out of one string so that different name lists spell the same letters) each built in K random insertion orders; " +
+			"lookup paths = instantiations with hostile parameter texts (incl. ':' '*' '#' '='), one-edit mutations, random bytes; oracle = naive per-pattern matcher written from the statement; the returned Params are also read through Params.Get. " +
+			"1 set in 10 is also served through Mux.Build (GET only; GET+POST; or GET/POST/PUT/HEAD shorthands plus Handler(\"PATCH\") with every path requested under six methods): the handler that ran, its registration method and the params it received are judged by the reference restricted to the patterns registered for the request method. " +
+			"classes shape:* count the rare input shapes per set/path (a shard that never produced one records harness:shape-missing/*). " +
 			"non-trivial = (pattern-set hash, path) where the reference finds an instantiation or the path shares >= 1 leading segment with a pattern; distinct by that pair",
 		Assumptions: []string{
 			"pattern syntax: ':' starts a single-segment parameter named up to the next '/', '*' starts a wildcard named by the rest of the pattern; a record is parameterised only if it contains '/:' '/*' or '=:' (denco's rule), otherwise the whole key is a static literal",
 			"patterns that use ':' '*' '#' as literal bytes are not generated (the router defines no syntax for them)",
-			"pattern sets rejected by Build are not judged",
+			"pattern sets rejected by Build are not judged (1 set in 100 repeats a parameter name inside a pattern to exercise the refusal; the outcome is classed, and judged like any other set if Build accepts it)",
+			"Params.Get(name) is judged only for the names of the matched pattern (it must return the text matched by the first placeholder of that name) and for one absent name (it must return \"\")",
+			"the mux selects the table by the exact request method; methods are upper-case tokens",
 			"parameter-vs-wildcard preference is not stated and not judged",
 		},
 		MinNontrivial: 200,
@@ -45,6 +49,11 @@ type Case struct {
 	// MuxMethods: the mux registers every pattern under GET and the even-numbered ones under POST as
 	// well; requests use GET, POST and PUT in turn (PUT has no routes: nothing may be found)
 	MuxMethods bool `json:"mux_methods,omitempty"`
+	// MuxMode 1 (implies ViaMux): pattern i is registered under GET, POST, PUT, HEAD (the shorthands) or
+	// PATCH (Mux.Handler) by i%5, every third pattern under GET too (Mux.Handler("GET")); every path is
+	// requested under GET, POST, PUT, HEAD, PATCH and DELETE (DELETE has no routes); the mux is built for the
+	// first two orders only
+	MuxMode int `json:"mux_mode,omitempty"`
 	// SizeHint, when set, is assigned to Router.SizeHint before Build (the exported tuning knob)
 	SizeHint *int `json:"size_hint,omitempty"`
 	// Generated: the set comes from the generator (a replayed foreign case may hold anything)
@@ -211,6 +220,261 @@ func reservedIn(path string) string {
 	return "plain-path"
 }
 
+// safeGet reads returned params through their accessor.
+func safeGet(ps denco.Params, name string) (v string, panicked string) {
+	defer func() {
+		if r := recover(); r != nil {
+			panicked = fmt.Sprint(r)
+		}
+	}()
+	return ps.Get(name), ""
+}
+
+// absentName is a parameter name no generated pattern uses.
+const absentName = "zz-absent"
+
+type inst struct {
+	rp *refPattern
+	ps []denco.Param
+}
+
+type finding struct{ sig, detail string }
+
+// judge applies the statement to ONE answer for ONE path. insts are the instantiations the reference found
+// among the patterns of the table that was asked, byText those patterns by their text (= registered value).
+// get reads the returned Params through Params.Get (nil: not observed).
+func judge(who string, a answer, path string, insts []inst, byText map[string]*refPattern, get func(name string) (string, bool)) []finding {
+	var out []finding
+	if a.found {
+		rp := byText[a.data]
+		if rp == nil {
+			return []finding{{"unsound-unknown-data", fmt.Sprintf("%s(%q) returned data %q that is no pattern registered in the table that was asked", who, path, a.data)}}
+		}
+		want, ok := rp.instantiate(path)
+		if !ok {
+			return []finding{{"unsound-not-instantiated", fmt.Sprintf("%s(%q) -> %s, but the path does not instantiate that pattern", who, path, a)}}
+		}
+		if !sameParams(want, a.params) {
+			return []finding{{"unsound-params", fmt.Sprintf("%s(%q) -> %s, expected params %v", who, path, a, want)}}
+		}
+		if get != nil {
+			// the list is right (just judged): read through the accessor, every name of the pattern yields the text of
+			// the first placeholder of that name, a name that is not in the pattern yields ""
+			seen := map[string]bool{}
+			for _, w := range want {
+				if seen[w.Name] {
+					continue
+				}
+				seen[w.Name] = true
+				if g, ok := get(w.Name); ok && g != w.Value {
+					out = append(out, finding{"params-get-wrong", fmt.Sprintf("%s(%q) -> %s, but Params.Get(%q) = %q", who, path, a, w.Name, g)})
+					break
+				}
+			}
+			if !seen[absentName] {
+				if g, ok := get(absentName); ok && g != "" {
+					out = append(out, finding{"params-get-wrong", fmt.Sprintf("%s(%q) -> %s, but Params.Get(%q) = %q for a name that is not in the pattern", who, path, a, absentName, g)})
+				}
+			}
+		}
+		// literal preference
+		for _, in := range insts {
+			if in.rp != rp && allNonEmpty(in.ps) && literalBeats(in.rp, rp, path) {
+				out = append(out, finding{"literal-not-preferred", fmt.Sprintf("%s(%q) -> %s although pattern %q (literal at the first difference) also matches", who, path, a, in.rp.text)})
+				break
+			}
+		}
+	} else {
+		for _, in := range insts {
+			if in.rp.static {
+				out = append(out, finding{"static-miss", fmt.Sprintf("%s(%q) not found although it equals the parameter-free pattern", who, path)})
+				break
+			}
+			if allNonEmpty(in.ps) {
+				out = append(out, finding{"incomplete", fmt.Sprintf("%s(%q) not found although it instantiates %q with %v", who, path, in.rp.text, in.ps)})
+				break
+			}
+		}
+	}
+	// static equality must return that very pattern
+	if rp, ok := byText[path]; ok && rp.static && a.found && a.data != path {
+		out = append(out, finding{"static-shadowed", fmt.Sprintf("%s(%q) -> %s although the path equals a parameter-free pattern", who, path, a)})
+	}
+	return out
+}
+
+// ---- the mux ----
+
+// requestMethods: what mode 1 asks for every path (DELETE has no routes).
+var requestMethods = []string{http.MethodGet, http.MethodPost, http.MethodPut, http.MethodHead, http.MethodPatch, http.MethodDelete}
+
+// regMethods: the methods pattern number i is registered under, in registration order.
+func regMethods(c *Case, i int) []string {
+	if c.MuxMode == 1 {
+		ms := []string{requestMethods[i%5]}
+		if i%3 == 0 && ms[0] != http.MethodGet {
+			ms = append(ms, http.MethodGet)
+		}
+		return ms
+	}
+	ms := []string{http.MethodGet}
+	if c.MuxMethods && i%2 == 0 {
+		ms = append(ms, http.MethodPost)
+	}
+	return ms
+}
+
+// register goes through the shorthand of the method for the first registration of a pattern and through
+// Mux.Handler (free method string) for PATCH and for second registrations in mode 1.
+func register(mux *denco.Mux, c *Case, nth int, method, pat string, hf denco.HandlerFunc) denco.Handler {
+	if c.MuxMode == 1 && nth > 0 {
+		return mux.Handler(method, pat, hf)
+	}
+	switch method {
+	case http.MethodGet:
+		return mux.GET(pat, hf)
+	case http.MethodPost:
+		return mux.POST(pat, hf)
+	case http.MethodPut:
+		return mux.PUT(pat, hf)
+	case http.MethodHead:
+		return mux.HEAD(pat, hf)
+	}
+	return mux.Handler(method, pat, hf)
+}
+
+// muxHandler is the handler registered for (method, pattern): it reports who it is, what it was handed, and
+// what Params.Get answers for the names of its own pattern.
+func muxHandler(method, pat string, names []string) denco.HandlerFunc {
+	return func(w http.ResponseWriter, _ *http.Request, ps denco.Params) {
+		w.Header().Set("X-Pattern", url.QueryEscape(pat))
+		w.Header().Set("X-Reg-Method", method)
+		for _, p := range ps {
+			w.Header().Add("X-Param", url.QueryEscape(p.Name)+"="+url.QueryEscape(p.Value))
+		}
+		for _, n := range names {
+			w.Header().Add("X-Get", url.QueryEscape(n)+"="+url.QueryEscape(ps.Get(n)))
+		}
+	}
+}
+
+func splitKV(kv string) (string, string) {
+	i := strings.IndexByte(kv, '=')
+	if i < 0 {
+		return kv, ""
+	}
+	n, _ := url.QueryUnescape(kv[:i])
+	v, _ := url.QueryUnescape(kv[i+1:])
+	return n, v
+}
+
+// ---- shapes: what the evidence must show was generated ----
+
+// requiredShapes are expected many times in every shard of a run; a shard that never saw one records
+// harness:shape-missing/<shape> (a generator edit that silently stops producing a shape becomes visible).
+var requiredShapes = []string{
+	"shape:wildcard-after-literal", "shape:sizehint-0", "shape:sizehint-1", "shape:sizehint-2", "shape:sizehint-64",
+	"shape:capture>=256B", "shape:pattern>=64B", "shape:pattern>=256B", "shape:static-with-midsegment-reserved",
+	"shape:non-ascii-literal", "shape:names-shared-across-patterns", "shape:names-concat-collide",
+	"shape:capture-starts-with-reserved", "shape:mux-mode-0", "shape:mux-mode-0-methods", "shape:mux-mode-1",
+	"shape:duplicate-name-in-pattern", "shape:restconf-param", "shape:midsegment-param",
+}
+
+var shapeSeen = map[string]int{}
+
+func shape(m *mon.M, s string) {
+	shapeSeen[s]++
+	m.Class(s)
+}
+
+func paramNames(rp *refPattern) []string {
+	var ns []string
+	for _, t := range rp.toks {
+		if t.kind != 'l' {
+			ns = append(ns, t.name)
+		}
+	}
+	return ns
+}
+
+// setShapes classes one pattern set (once per set).
+func setShapes(m *mon.M, c *Case, refs []refPattern) {
+	has := map[string]bool{}
+	nameOwner := map[string]int{}
+	joined := map[string]string{} // names concatenated -> names joined with NUL
+	for i := range refs {
+		rp := &refs[i]
+		n := len(rp.text)
+		switch {
+		case n >= 256:
+			has["shape:pattern>=256B"], has["shape:pattern>=64B"] = true, true
+		case n >= 64:
+			has["shape:pattern>=64B"] = true
+		}
+		for j := 0; j < n; j++ {
+			if rp.text[j] >= 0x80 {
+				has["shape:non-ascii-literal"] = true
+				break
+			}
+		}
+		if rp.static {
+			if strings.ContainsAny(rp.text, ":*") {
+				has["shape:static-with-midsegment-reserved"] = true
+			}
+			continue
+		}
+		for j, t := range rp.toks {
+			prev := byte('/')
+			if j > 0 && rp.toks[j-1].kind == 'l' {
+				prev = rp.toks[j-1].b
+			}
+			switch {
+			case t.kind == 'w' && prev != '/':
+				has["shape:wildcard-after-literal"] = true
+			case t.kind == 'p' && prev == '=':
+				has["shape:restconf-param"] = true
+			case t.kind == 'p' && prev != '/':
+				has["shape:midsegment-param"] = true
+			}
+		}
+		ns := paramNames(rp)
+		inPat := map[string]bool{}
+		for _, nm := range ns {
+			if inPat[nm] {
+				has["shape:duplicate-name-in-pattern"] = true
+			}
+			inPat[nm] = true
+			if o, ok := nameOwner[nm]; ok && o != i {
+				has["shape:names-shared-across-patterns"] = true
+			}
+			nameOwner[nm] = i
+		}
+		cat, sep := strings.Join(ns, ""), strings.Join(ns, "\x00")
+		if prev, ok := joined[cat]; ok && prev != sep {
+			has["shape:names-concat-collide"] = true
+		}
+		joined[cat] = sep
+	}
+	if c.SizeHint != nil {
+		has[fmt.Sprintf("shape:sizehint-%d", *c.SizeHint)] = true
+	} else {
+		has["shape:sizehint-default"] = true
+	}
+	if c.ViaMux {
+		switch {
+		case c.MuxMode == 1:
+			has["shape:mux-mode-1"] = true
+		case c.MuxMethods:
+			has["shape:mux-mode-0-methods"] = true
+		default:
+			has["shape:mux-mode-0"] = true
+		}
+	}
+	for s := range has {
+		shape(m, s)
+	}
+}
+
 func runCase(m *mon.M, c *Case) {
 	pats := mon.SQ(c.Patterns)
 	refs := make([]refPattern, len(pats))
@@ -218,6 +482,20 @@ func runCase(m *mon.M, c *Case) {
 	for i, p := range pats {
 		refs[i] = parsePattern(p)
 		byText[p] = &refs[i]
+	}
+	setShapes(m, c, refs)
+	viaMux := c.ViaMux || c.MuxMode == 1
+	// the table of every method the mux is given: method -> patterns registered under it, by text
+	muxTables := map[string]map[string]*refPattern{}
+	if viaMux {
+		for i, p := range pats {
+			for _, method := range regMethods(c, i) {
+				if muxTables[method] == nil {
+					muxTables[method] = map[string]*refPattern{}
+				}
+				muxTables[method][p] = &refs[i]
+			}
+		}
 	}
 	var routers []*denco.Router
 	var postRouters []*denco.Router
@@ -259,25 +537,43 @@ func runCase(m *mon.M, c *Case) {
 				m.Violate("build-rejects-wellformed-set", fmt.Sprintf("Build refused a generated set of %d patterns: %v", len(pats), berr), c)
 			}
 			m.Class("build-rejected")
+			if viaMux {
+				// the same set through Mux.Build (its refusal path); not judged: the statement speaks of accepted sets
+				mux := denco.NewMux()
+				var hs []denco.Handler
+				for _, i := range ord {
+					for nth, method := range regMethods(c, i) {
+						hs = append(hs, register(mux, c, nth, method, pats[i], muxHandler(method, pats[i], nil)))
+					}
+				}
+				var merr error
+				if pv, st := mon.Catch(func() { _, merr = mux.Build(hs) }); pv != nil {
+					m.Violate("mux-build-panic", fmt.Sprintf("Mux.Build panicked: %v\n%s", pv, st), c)
+				} else if merr != nil {
+					m.Class("mux-build-rejected")
+				} else {
+					m.Class("probe:mux-build-accepts-what-a-router-refused")
+				}
+			}
 			return
 		}
 		routers = append(routers, rt)
-		if c.ViaMux {
+		if viaMux && c.MuxMode == 1 && len(muxes) >= 2 {
+			// mode 1 asks six methods per path: the mux is built for the first two orders only
+			muxes = append(muxes, nil)
+			postRouters = append(postRouters, nil)
+		} else if viaMux {
 			mux := denco.NewMux()
 			var hs []denco.Handler
 			var postRecs []denco.Record
 			for _, i := range ord {
 				pat := pats[i]
-				hf := func(w http.ResponseWriter, _ *http.Request, ps denco.Params) {
-					w.Header().Set("X-Pattern", url.QueryEscape(pat))
-					for _, p := range ps {
-						w.Header().Add("X-Param", url.QueryEscape(p.Name)+"="+url.QueryEscape(p.Value))
+				names := append(paramNames(&refs[i]), absentName)
+				for nth, method := range regMethods(c, i) {
+					hs = append(hs, register(mux, c, nth, method, pat, muxHandler(method, pat, names)))
+					if c.MuxMode == 0 && method == http.MethodPost {
+						postRecs = append(postRecs, denco.NewRecord(pat, pat))
 					}
-				}
-				hs = append(hs, mux.GET(pat, hf))
-				if c.MuxMethods && i%2 == 0 {
-					hs = append(hs, mux.POST(pat, hf))
-					postRecs = append(postRecs, denco.NewRecord(pat, pat))
 				}
 			}
 			prt := denco.New()
@@ -285,10 +581,21 @@ func runCase(m *mon.M, c *Case) {
 				_ = prt.Build(postRecs)
 			}
 			postRouters = append(postRouters, prt)
-			h, err := mux.Build(hs)
-			if err == nil {
-				muxes = append(muxes, h)
+			var h http.Handler
+			var merr error
+			if pv, st := mon.Catch(func() { h, merr = mux.Build(hs) }); pv != nil {
+				m.Violate("mux-build-panic", fmt.Sprintf("Mux.Build panicked: %v\n%s", pv, st), c)
+				return
 			}
+			if merr != nil {
+				if c.Generated {
+					// every per-method table is a subset of a set Router.Build has just accepted
+					m.Violate("mux-build-rejects-wellformed-set", fmt.Sprintf("Mux.Build refused handlers for a generated set of %d patterns: %v", len(pats), merr), c)
+				}
+				m.Class("mux-build-rejected")
+				h = nil
+			}
+			muxes = append(muxes, h) // muxes[k] goes with routers[k]; nil: not built
 		}
 	}
 	setHash := fmt.Sprintf("%x", mon.Hash64(strings.Join(sortedCopy(pats), "\x00")))
@@ -298,10 +605,6 @@ func runCase(m *mon.M, c *Case) {
 		path := string(qp)
 		m.Eval(1)
 		// reference
-		type inst struct {
-			rp *refPattern
-			ps []denco.Param
-		}
 		var insts []inst
 		for i := range refs {
 			if ps, ok := refs[i].instantiate(path); ok {
@@ -319,6 +622,23 @@ func runCase(m *mon.M, c *Case) {
 		}
 		if nontrivial {
 			m.NT(setHash + "|" + path)
+		}
+		for _, in := range insts {
+			long, resv := false, false
+			for _, p := range in.ps {
+				if len(p.Value) >= 256 {
+					long = true
+				}
+				if p.Value != "" && strings.IndexByte(":*#\x00", p.Value[0]) >= 0 {
+					resv = true
+				}
+			}
+			if long {
+				shape(m, "shape:capture>=256B")
+			}
+			if resv {
+				shape(m, "shape:capture-starts-with-reserved")
+			}
 		}
 		feat := reservedIn(path)
 		var first answer
@@ -342,89 +662,104 @@ func runCase(m *mon.M, c *Case) {
 				two := &Case{Patterns: c.Patterns, Orders: c.Orders[:k+1], Paths: []mon.Q{qp}, SizeHint: c.SizeHint}
 				m.Violate("order-dependent/"+feat, fmt.Sprintf("Lookup(%q): order#0 -> %s ; order#%d -> %s", path, first, k, a), two)
 			}
+			getPanic := ""
+			get := func(name string) (string, bool) {
+				v, p := safeGet(a.raw, name)
+				if p != "" {
+					getPanic = p
+					return "", false
+				}
+				return v, true
+			}
+			for _, f := range judge("Lookup", a, path, insts, byText, get) {
+				m.Violate(f.sig+"/"+feat, f.detail, one)
+			}
+			if getPanic != "" {
+				m.Violate("params-get-panic/"+feat, fmt.Sprintf("Params.Get on the result of Lookup(%q) -> %s panicked: %s", path, a, getPanic), one)
+			}
 			if a.found {
-				rp := byText[a.data]
-				if rp == nil {
-					m.Violate("unsound-unknown-data/"+feat, fmt.Sprintf("Lookup(%q) returned data %q that is no registered pattern", path, a.data), one)
-					continue
-				}
-				want, ok := rp.instantiate(path)
-				if !ok {
-					m.Violate("unsound-not-instantiated/"+feat, fmt.Sprintf("Lookup(%q) -> %s, but the path does not instantiate that pattern", path, a), one)
-					continue
-				}
-				if !sameParams(want, a.params) {
-					m.Violate("unsound-params/"+feat, fmt.Sprintf("Lookup(%q) -> %s, expected params %v", path, a, want), one)
-					continue
-				}
-				// literal preference
-				for _, in := range insts {
-					if in.rp != rp && allNonEmpty(in.ps) && literalBeats(in.rp, rp, path) {
-						m.Violate("literal-not-preferred/"+feat, fmt.Sprintf("Lookup(%q) -> %s although pattern %q (literal at the first difference) also matches", path, a, in.rp.text), one)
-						break
-					}
-				}
 				m.Class("found")
 			} else {
-				for _, in := range insts {
-					if in.rp.static {
-						m.Violate("static-miss/"+feat, fmt.Sprintf("Lookup(%q) not found although it equals the parameter-free pattern", path), one)
-						break
-					}
-					if allNonEmpty(in.ps) {
-						m.Violate("incomplete/"+feat, fmt.Sprintf("Lookup(%q) not found although it instantiates %q with %v", path, in.rp.text, in.ps), one)
-						break
-					}
-				}
 				m.Class("notfound")
 			}
-			// static equality must return that very pattern
-			if rp, ok := byText[path]; ok && rp.static && a.found && a.data != path {
-				m.Violate("static-shadowed/"+feat, fmt.Sprintf("Lookup(%q) -> %s although the path equals a parameter-free pattern", path, a), one)
-			}
 		}
-		// serveMux agreement (URL.Path fed directly)
+		// the http.Handler of Mux.Build (URL.Path fed directly)
 		for k, h := range muxes {
-			if k >= len(routers) {
-				break
-			}
-			want := lookup(routers[k], path)
-			method := http.MethodGet
-			if c.MuxMethods {
-				switch pi % 3 {
-				case 1:
-					method = http.MethodPost
-					want = lookup(postRouters[k], path)
-				case 2:
-					method = http.MethodPut
-					want = answer{}
-				}
-			}
-			rec := httptest.NewRecorder()
-			req := &http.Request{Method: method, URL: &url.URL{Path: path}, Header: http.Header{}}
-			pv, _ := mon.Catch(func() { h.ServeHTTP(rec, req) })
-			one := &Case{Patterns: c.Patterns, Orders: c.Orders[:k+1], Paths: c.Paths[:pi+1], ViaMux: true, MuxMethods: c.MuxMethods, SizeHint: c.SizeHint}
-			if pv != nil {
-				if want.panic == "" {
-					m.Violate("mux-panic/"+feat, fmt.Sprintf("mux.ServeHTTP(%q) panicked: %v", path, pv), one)
-				}
+			if k >= len(routers) || h == nil {
 				continue
 			}
-			got := answer{}
-			if xp := rec.Header().Get("X-Pattern"); xp != "" {
-				got.found = true
-				got.data, _ = url.QueryUnescape(xp)
-				for _, kv := range rec.Header().Values("X-Param") {
-					i := strings.IndexByte(kv, '=')
-					n, _ := url.QueryUnescape(kv[:i])
-					v, _ := url.QueryUnescape(kv[i+1:])
-					got.params = append(got.params, denco.Param{Name: n, Value: v})
+			methods := []string{http.MethodGet}
+			switch {
+			case c.MuxMode == 1:
+				methods = requestMethods
+			case c.MuxMethods:
+				methods = []string{[]string{http.MethodGet, http.MethodPost, http.MethodPut}[pi%3]}
+			}
+			for _, method := range methods {
+				// mode 0 also compares with the answer of a Router built from the same records
+				var want answer
+				compare := c.MuxMode == 0
+				if compare {
+					switch method {
+					case http.MethodGet:
+						want = lookup(routers[k], path)
+					case http.MethodPost:
+						want = lookup(postRouters[k], path)
+					}
 				}
+				rec := httptest.NewRecorder()
+				req := &http.Request{Method: method, URL: &url.URL{Path: path}, Header: http.Header{}}
+				pv, _ := mon.Catch(func() { h.ServeHTTP(rec, req) })
+				one := &Case{Patterns: c.Patterns, Orders: c.Orders[:k+1], Paths: c.Paths[:pi+1], ViaMux: true, MuxMethods: c.MuxMethods, MuxMode: c.MuxMode, SizeHint: c.SizeHint}
+				if c.MuxMode == 1 {
+					one.Paths = []mon.Q{qp} // every path is asked under every method: one path replays alone
+				}
+				if pv != nil {
+					if want.panic == "" {
+						m.Violate("mux-panic/"+feat, fmt.Sprintf("mux.ServeHTTP(%s %q) panicked: %v", method, path, pv), one)
+					}
+					continue
+				}
+				got := answer{}
+				regMethod := ""
+				var gets map[string]string
+				if xp := rec.Header().Get("X-Pattern"); xp != "" {
+					got.found = true
+					got.data, _ = url.QueryUnescape(xp)
+					regMethod = rec.Header().Get("X-Reg-Method")
+					for _, kv := range rec.Header().Values("X-Param") {
+						n, v := splitKV(kv)
+						got.params = append(got.params, denco.Param{Name: n, Value: v})
+					}
+					gets = map[string]string{}
+					for _, kv := range rec.Header().Values("X-Get") {
+						n, v := splitKV(kv)
+						if _, dup := gets[n]; !dup {
+							gets[n] = v
+						}
+					}
+				}
+				if compare && want.panic == "" && got.String() != want.String() {
+					m.Violate("mux-disagrees/"+feat, fmt.Sprintf("mux for %s %q -> %s, Lookup -> %s", method, path, got, want), one)
+				}
+				// the reference, restricted to what was registered under the request method
+				tbl := muxTables[method]
+				var tinsts []inst
+				for _, in := range insts {
+					if tbl[in.rp.text] == in.rp {
+						tinsts = append(tinsts, in)
+					}
+				}
+				get := func(name string) (string, bool) { v, ok := gets[name]; return v, ok }
+				for _, f := range judge("mux "+method+" ", got, path, tinsts, tbl, get) {
+					m.Violate("mux-"+f.sig+"/"+feat, f.detail, one)
+				}
+				if got.found && regMethod != method && tbl[got.data] != nil {
+					m.Violate("mux-wrong-method-table/"+feat, fmt.Sprintf("mux %s %q ran the handler registered under %s for %q", method, path, regMethod, got.data), one)
+				}
+				m.Class("mux")
+				m.Class("mux:" + method)
 			}
-			if want.panic == "" && got.String() != want.String() {
-				m.Violate("mux-disagrees/"+feat, fmt.Sprintf("mux for %q -> %s, Lookup -> %s", path, got, want), one)
-			}
-			m.Class("mux")
 		}
 	}
 	if m.WantSample() {
@@ -549,9 +884,103 @@ func genPattern(r *rand.Rand, id int) string {
 	return sb.String()
 }
 
-func genSet(r *rand.Rand, n int) []string {
+// Name modes of a set. Names are always unique INSIDE a pattern (Build refuses a repeated one).
+const (
+	namesUnique = iota // p<id>_<n>, w<id>: no two patterns share a name
+	namesPool          // drawn from namePool: the everyday table (/users/:id, /users/:id/posts, /:id) shares names
+	namesCut           // the names of a pattern are consecutive pieces of ONE string: different lists spell the same letters
+)
+
+var namePool = []string{"id", "name", "a", "b", "c", "ab", "bc", "abc", "i", "d"}
+
+const cutString = "abcdefghijkl"
+
+func pickNameMode(r *rand.Rand) int {
+	switch k := r.Intn(8); {
+	case k < 2:
+		return namesPool
+	case k < 3:
+		return namesCut
+	}
+	return namesUnique
+}
+
+// rename rewrites the placeholder names of a pattern (structure and literals unchanged).
+func rename(p string, names []string) string {
+	rp := parsePattern(p)
+	if rp.static {
+		return p
+	}
+	var sb strings.Builder
+	k := 0
+	for _, t := range rp.toks {
+		switch t.kind {
+		case 'l':
+			sb.WriteByte(t.b)
+		case 'p':
+			sb.WriteByte(':')
+			sb.WriteString(names[k])
+			k++
+		case 'w':
+			sb.WriteByte('*')
+			sb.WriteString(names[k])
+			k++
+		}
+	}
+	return sb.String()
+}
+
+// renameFor gives the pattern names of the set's mode; cutLen is the length of the string cut in namesCut.
+func renameFor(r *rand.Rand, p string, mode, cutLen int) string {
+	if mode == namesUnique {
+		return p
+	}
+	rp := parsePattern(p)
+	k := len(paramNames(&rp))
+	if k == 0 {
+		return p
+	}
+	names := make([]string, 0, k)
+	switch mode {
+	case namesPool:
+		if k > len(namePool) {
+			return p
+		}
+		for _, j := range r.Perm(len(namePool))[:k] {
+			names = append(names, namePool[j])
+		}
+	case namesCut:
+		if k > len(cutString) {
+			return p
+		}
+		if cutLen < k {
+			cutLen = k
+		}
+		// k-1 distinct cut points in 1..cutLen-1, ascending; the pieces are pairwise different (distinct letters)
+		cuts := append([]int{}, r.Perm(cutLen - 1)[:k-1]...)
+		for i := range cuts {
+			cuts[i]++
+		}
+		for i := 1; i < len(cuts); i++ {
+			for j := i; j > 0 && cuts[j] < cuts[j-1]; j-- {
+				cuts[j], cuts[j-1] = cuts[j-1], cuts[j]
+			}
+		}
+		prev := 0
+		for _, ct := range append(cuts, cutLen) {
+			names = append(names, cutString[prev:ct])
+			prev = ct
+		}
+	}
+	return rename(p, names)
+}
+
+func genSet(r *rand.Rand, n int) []string { return genSetNamed(r, n, namesUnique) }
+
+func genSetNamed(r *rand.Rand, n, mode int) []string {
 	seen := map[string]bool{}
 	var out []string
+	cutLen := 3 + r.Intn(4)
 	for tries := 0; len(out) < n && tries < n*20; tries++ {
 		p := genPattern(r, len(out))
 		// structural key: names removed, so that no two patterns are structurally identical
@@ -560,9 +989,26 @@ func genSet(r *rand.Rand, n int) []string {
 			continue
 		}
 		seen[key] = true
-		out = append(out, p)
+		out = append(out, renameFor(r, p, mode, cutLen))
 	}
 	return out
+}
+
+// repeatName makes one pattern of the set repeat a parameter name (the set is then no longer well formed:
+// Build is expected to refuse it). It reports whether a pattern with two placeholders was found.
+func repeatName(r *rand.Rand, pats []string) bool {
+	for _, i := range r.Perm(len(pats)) {
+		rp := parsePattern(pats[i])
+		ns := paramNames(&rp)
+		if len(ns) < 2 {
+			continue
+		}
+		j := 1 + r.Intn(len(ns)-1)
+		ns[j] = ns[r.Intn(j)]
+		pats[i] = rename(pats[i], ns)
+		return true
+	}
+	return false
 }
 
 func structKey(p string) string {
@@ -673,15 +1119,26 @@ func genPaths(r *rand.Rand, pats []string, n int) []string {
 
 func genCase(r *rand.Rand, maxPat, norders, npaths int) *Case {
 	n := 1 + r.Intn(maxPat)
-	pats := genSet(r, n)
+	pats := genSetNamed(r, n, pickNameMode(r))
+	generated := true
+	if r.Intn(100) == 0 && repeatName(r, pats) {
+		generated = false // not well formed any more: a refusal by Build is no finding
+	}
 	c := &Case{Patterns: mon.QS(pats)}
 	for k := 0; k < norders; k++ {
 		c.Orders = append(c.Orders, r.Perm(len(pats)))
 	}
 	c.Paths = mon.QS(genPaths(r, pats, npaths))
-	c.Generated = true
+	c.Generated = generated
 	c.ViaMux = r.Intn(10) == 0
-	c.MuxMethods = c.ViaMux && r.Intn(2) == 0
+	if c.ViaMux {
+		switch r.Intn(4) {
+		case 0:
+			c.MuxMethods = true
+		case 1, 2:
+			c.MuxMode = 1
+		}
+	}
 	if r.Intn(4) == 0 {
 		h := []int{0, 1, 2, 64}[r.Intn(4)]
 		c.SizeHint = &h
@@ -709,10 +1166,19 @@ func run(m *mon.M) {
 		w := word(r)
 		depth := 6 + r.Intn(14)
 		var pats []string
+		shared := r.Intn(2) == 0 // every rung and the catch-all use the same name
 		for k := 1; k <= depth; k++ {
-			pats = append(pats, strings.Repeat("/"+w, k)+fmt.Sprintf("/:p%d/x", k))
+			if shared {
+				pats = append(pats, strings.Repeat("/"+w, k)+"/:id/x")
+			} else {
+				pats = append(pats, strings.Repeat("/"+w, k)+fmt.Sprintf("/:p%d/x", k))
+			}
 		}
-		pats = append(pats, "/*rest")
+		if shared {
+			pats = append(pats, "/*id")
+		} else {
+			pats = append(pats, "/*rest")
+		}
 		c := &Case{Patterns: mon.QS(pats), Generated: true}
 		for k := 0; k < 3; k++ {
 			c.Orders = append(c.Orders, r.Perm(len(pats)))
@@ -734,14 +1200,27 @@ func run(m *mon.M) {
 			size = 1500 // "thousands of records" in the quick tier too
 		}
 		pats := genBigSet(r, size)
+		if mode := i % 3; mode != namesUnique {
+			// 1: pool names shared by hundreds of records, 2: name lists that spell the same letters
+			cutLen := 3 + r.Intn(6)
+			for j := range pats {
+				pats[j] = renameFor(r, pats[j], mode, cutLen)
+			}
+		}
 		c := &Case{Patterns: mon.QS(pats), Generated: true}
 		for k := 0; k < 3; k++ {
 			c.Orders = append(c.Orders, r.Perm(len(pats)))
 		}
 		c.Paths = mon.QS(genPaths(r, pats, 400))
-		m.Begin(map[string]interface{}{"big_set_seed_index": i, "size": len(pats)})
+		m.Begin(c) // the case itself (a few thousand short strings): a worker death leaves a witness that replays
 		runCase(m, c)
 		m.Class("big-set")
+	}
+	// every shard is expected to have produced every rare shape many times over
+	for _, s := range requiredShapes {
+		if shapeSeen[s] == 0 {
+			m.Class("harness:shape-missing/" + s)
+		}
 	}
 }
 
